@@ -269,7 +269,7 @@ def impl_oracle(run):
                             rep({"expected": str(ok)})))
     elif st == "append":
         f = list(fin.values())[0]
-        got = bytes.fromhex(f.get("b") or "").decode()
+        got = bytes.fromhex(f.get("b") or "").decode("latin-1")   # any bytes: a store may hold what nobody appended
         toks = [got[i:i + 8] for i in range(0, len(got), 8)]
         oks = [dstr(c["op"]["v"]) for c in calls if c["e"] == "ok"]
         if sorted(toks) != sorted(oks):
